@@ -12,6 +12,9 @@
                     ','; '|' and '#' may be whole marbles of a group; groups do not nest
      '|' '#'        on_completed / on_error
      ' '            ignored: does not advance time
+   Wide digits (WideChars / WideChars2): a digit that stands for a block of WideLen / WideLen2 digit characters of
+   the real string (decoded by the codec to the numeral of an integer beyond 2^53 - TLC integers are 32-bit); it
+   occupies Width(c) frames, and the reference function measures positions with Pos(i).
    Left out because the documentation does not say what they mean (the replayer never sees them):
    unbalanced or nested parentheses, '-' inside a group, ',' outside a group, empty groups and
    empty group elements, '|' / '#' glued to value characters inside a group, a space between two
@@ -31,6 +34,10 @@ CONSTANTS ValChars,   \* ordinary characters offered, e.g. {"1", "0", "a", "."}
           MaxLen,     \* maximal length of the string
           MaxSpaces,  \* at most this many spaces per string
           SpaceMaxLen,\* strings that contain a space are enumerated up to this length only
+          WideChars,  \* value characters (digits) that stand for a BLOCK of WideLen digit characters of the real
+          WideLen,    \* string (the codec decodes the block to the numeral of an integer beyond 2^53: TLC integers are
+          WideChars2, \* 32-bit, so the wide numerals live on the codec side); a second family with its own width.
+          WideLen2,   \* A block is part of a value run like any digit; it occupies Width(c) frames.
           AllParams   \* TRUE: every parameter point for every string; FALSE: one point per string, chosen
                       \* by its length and marble count (two - with and without raise_stopped - when something
                       \* follows a terminal)
@@ -40,6 +47,8 @@ VARIABLES str, frame, inGroup, gFrame, cur, curF, lastSp, expect, stopped, rejec
 vars == <<str, frame, inGroup, gFrame, cur, curF, lastSp, expect, stopped, reject, msgs, nsp>>
 
 Msg(f, k, t) == [f |-> f, k |-> k, t |-> t]
+\* number of characters of the real string a model character stands for
+Width(c) == IF c \in WideChars THEN WideLen ELSE IF c \in WideChars2 THEN WideLen2 ELSE 1
 
 Init == /\ str = <<>> /\ frame = 0 /\ inGroup = FALSE /\ gFrame = 0 /\ cur = <<>> /\ curF = 0
         /\ lastSp = FALSE /\ expect = "any" /\ stopped = FALSE /\ reject = FALSE /\ msgs = <<>>
@@ -59,7 +68,7 @@ ElemChar == \E c \in ValChars :
     /\ Consume(c)
     /\ IF cur = <<>> THEN cur' = <<c>> /\ curF' = (IF inGroup THEN gFrame ELSE frame)
                      ELSE cur' = Append(cur, c) /\ UNCHANGED curF
-    /\ frame' = frame + 1 /\ lastSp' = FALSE /\ expect' = "any"
+    /\ frame' = frame + Width(c) /\ lastSp' = FALSE /\ expect' = "any"
     /\ UNCHANGED <<inGroup, gFrame, stopped, reject, msgs, nsp>>
 
 Tick == /\ Room /\ ~inGroup /\ Consume("-")
@@ -103,8 +112,18 @@ Class(t) == IF AllIn(t, Digits) THEN "int"
             ELSE "str"
 
 \* parameter points: timespan, shift, lookup keys (texts of class "str"), raise_stopped
-PT(ix, nm, ts, sh, lk, rs) == [idx |-> ix, name |-> nm, ts |-> ts, shift |-> sh, lk |-> lk, rs |-> rs]
-ParamTable == { PT(0, "plain", 1, 0, {}, FALSE),
+\* nk: numeric lookup keys (the lookup is a Mapping[str | float, Any]: "dict used to convert an element into a
+\* specified value", and the element of a numeral marble is the number) - texts of class "int"; offered only
+\* together with wide digits, over alphabets without leading zeros and without '.', so that text <-> number is
+\* one-to-one and no float marble equals an int key
+PT(ix, nm, ts, sh, lk, rs) == [idx |-> ix, name |-> nm, ts |-> ts, shift |-> sh, lk |-> lk, nk |-> {}, rs |-> rs]
+AllWide == WideChars \cup WideChars2
+NumKeys == {<<c>> : c \in AllWide} \cup {<<c, d>> : c \in AllWide, d \in Digits \ AllWide}
+WideTable == IF AllWide = {} THEN {}
+             ELSE { [PT(4, "numkeys", 1, 0, {<<"a">>}, TRUE) EXCEPT !.nk = NumKeys],
+                    [PT(5, "numkeys2", 2, 1, {}, FALSE) EXCEPT !.nk = NumKeys] }
+ParamTable == WideTable \cup
+              { PT(0, "plain", 1, 0, {}, FALSE),
                 \* the lookup may mention the terminal characters as keys: '|' and '#' in the diagram are
                 \* terminals because of the CHARACTER, they are not elements and are never looked up
                 \* (and a value that the lookup maps TO the string "|" or "#" - a codec profile - stays a value)
@@ -112,14 +131,16 @@ ParamTable == { PT(0, "plain", 1, 0, {}, FALSE),
                 PT(2, "lookup", 2, 5, {<<"a">>, <<"a", "a">>, <<"a", ".">>, <<".">>, <<"|">>, <<"#">>}, FALSE),
                 PT(3, "scaled", 3, 2, {<<"a">>}, TRUE) }
 Selected == IF AllParams THEN ParamTable
-            ELSE LET i == (Len(str) + Len(Flushed)) % 4 IN
-                 {q \in ParamTable : q.idx = i \/ (RejFlush /\ q.idx = (i + 1) % 4)}
+            ELSE LET n == Cardinality(ParamTable)
+                     i == (Len(str) + Len(Flushed)) % n IN
+                 {q \in ParamTable : q.idx = i \/ (RejFlush /\ q.idx = (i + 1) % n)}
 
 \* a looked-up marble carries the key's token, any other its class and text
-Value(m, lk) == IF m.k # "N" THEN <<"-", <<>>>>
+Value(m, lk, nk) == IF m.k # "N" THEN <<"-", <<>>>>
                 ELSE IF Class(m.t) = "str" /\ m.t \in lk THEN <<"lk", m.t>>
+                ELSE IF Class(m.t) = "int" /\ m.t \in nk THEN <<"nlk", m.t>>
                 ELSE <<Class(m.t), m.t>>
-Timed(ms, p) == [i \in 1..Len(ms) |-> [time |-> ms[i].f * p.ts + p.shift, k |-> ms[i].k, v |-> Value(ms[i], p.lk)]]
+Timed(ms, p) == [i \in 1..Len(ms) |-> [time |-> ms[i].f * p.ts + p.shift, k |-> ms[i].k, v |-> Value(ms[i], p.lk, p.nk)]]
 
 \* what parse(str, ...) must return at parameter point p, if the string ends here
 Complete  == ~inGroup /\ str # <<>>
@@ -132,6 +153,9 @@ Spec == Init /\ [][Next]_vars
 (* ---- the documented meaning as a function of the whole string --------------------------------- *)
 T == SelectSeq(str, LAMBDA c : c # " ")                    \* spaces are ignored
 IsVal(c)  == c \in ValChars
+\* the index, in the real string without spaces, of the character model position i stands for (its first one)
+RECURSIVE Pos(_)
+Pos(i) == IF i <= 1 THEN 0 ELSE Pos(i - 1) + Width(T[i - 1])
 IsTerm(c) == c \in {"|", "#"}
 \* position i lies inside a group opened at GroupOpen(i)
 InGroupAt(i) == \E j \in 1..(i - 1) : T[j] = "(" /\ \A m \in (j + 1)..(i - 1) : T[m] # ")"
@@ -139,7 +163,7 @@ GroupOpen(i) == CHOOSE j \in 1..(i - 1) : T[j] = "(" /\ \A m \in (j + 1)..(i - 1
 \* a marble starts at a terminal character, or at a value character not preceded by one
 Starts == {i \in 1..Len(T) : IsTerm(T[i]) \/ (IsVal(T[i]) /\ (i = 1 \/ ~IsVal(T[i - 1])))}
 RunEnd(i) == CHOOSE e \in i..Len(T) : (\A m \in i..e : IsVal(T[m])) /\ (e = Len(T) \/ ~IsVal(T[e + 1]))
-RefMsg(i) == Msg(IF InGroupAt(i) THEN GroupOpen(i) - 1 ELSE i - 1,       \* index of the starting character / of the '('
+RefMsg(i) == Msg(IF InGroupAt(i) THEN Pos(GroupOpen(i)) ELSE Pos(i),       \* index of the starting character / of the '('
                  IF T[i] = "|" THEN "C" ELSE IF T[i] = "#" THEN "E" ELSE "N",
                  IF IsVal(T[i]) THEN SubSeq(T, i, RunEnd(i)) ELSE <<>>)
 RECURSIVE RefFrom(_)
@@ -149,13 +173,13 @@ RefReject == \E i, j \in Starts : i < j /\ IsTerm(T[i])      \* some marble afte
 
 RefOK == /\ Flushed = RefFrom(1)
          /\ RejFlush = RefReject
-TypeOK == /\ frame = Len(T) /\ Len(str) <= MaxLen /\ (inGroup => gFrame < frame)
+TypeOK == /\ frame = Pos(Len(T) + 1) /\ Len(str) <= MaxLen /\ (inGroup => gFrame < frame)
           /\ (cur # <<>> => curF <= frame)
 \* times never decrease along the message list; a group's marbles share one time
 Monotone == \A i \in 1..(Len(Flushed) - 1) : Flushed[i].f <= Flushed[i + 1].f
 \* every non-space character advances time by exactly one frame: the next marble outside a group
 \* starts at the number of characters before it
-FrameIsIndex == \A i \in 1..Len(Flushed) : Flushed[i].f < Len(T)
+FrameIsIndex == \A i \in 1..Len(Flushed) : Flushed[i].f < Pos(Len(T) + 1)
 \* with raise_stopped the result is a rejection iff something follows a terminal; otherwise all marbles are kept
 Verdict == Complete => \A p \in ParamTable :
                  /\ Result(p).rejected = (p.rs /\ RefReject)
@@ -163,6 +187,7 @@ Verdict == Complete => \A p \in ParamTable :
 
 (* ---- export: every prefix that is a complete string is a scenario ------------------------------ *)
 Export == Complete => \A p \in Selected :
-            PrintT(ToJson([scn |-> [s |-> str, par |-> [name |-> p.name, ts |-> p.ts, shift |-> p.shift, lk |-> p.lk, rs |-> p.rs]],
+            PrintT(ToJson([scn |-> [s |-> str, par |-> [name |-> p.name, ts |-> p.ts, shift |-> p.shift, lk |-> p.lk, nk |-> p.nk, rs |-> p.rs],
+                                   wide |-> [a |-> WideChars, alen |-> WideLen, b |-> WideChars2, blen |-> WideLen2]],
                            obs |-> Result(p)]))
 ================================================================================
